@@ -48,11 +48,19 @@ def run(ctx):
         nprng = np.random.RandomState(rng.randrange(2 ** 31))
         X = np.round(nprng.randn(n, 2), 3)
         c = rng.randint(2, 3)
+        auc_case = method in ("bruteforce", "montecarlo") and not mc_trunc and it % 8 in (1, 2, 5)
+        if auc_case:
+            c = 2           # binary labels: the case is also run under a ROC-AUC utility (below)
         y = np.array([i % c for i in range(n)])
         nprng.shuffle(y)
         m = rng.randint(2, 4) if not mc_trunc else rng.randint(8, 12)
         Xv = np.round(nprng.randn(m, 2), 3)
         yv = np.array([rng.randrange(c) for _ in range(m)])
+        if auc_case:
+            m = max(m, 3)
+            Xv = np.round(nprng.randn(m, 2), 3)
+            yv = np.array([j % 2 for j in range(m)])
+            nprng.shuffle(yv)
         kw = {}
         if method == "montecarlo":
             kw = dict(mc_iterations=3, mc_truncation_steps=0, seed=rng.randrange(1000))
